@@ -273,6 +273,11 @@ PUMP_WORDS = ["default", "Defaults", "defaults to", "Default value", "Default:",
               "Optional", "List", "```", "foo"]
 
 
+BOMBS = ["`9**9**9` or `1`", "9**9**9 or 1", "one of `9**9**9`, `2`", "`8**8**9//9**9**9` or `1`", "`-9**9**9` or `0`", "`9**9**9%7` or `2`", "9**9**9 | 1", "`1<<9**9` or `1`"]
+BOMB_TEMPLATES = [":param a: {}\n", "Summary.\n\n:param a: the size. {}\n:type a: ```int```\n", "Args:\n  a: {}\n", "Args:\n  a (int): the size, {}\n\nReturns:\n  {}\n",
+                  "Parameters\n----------\na : int\n    {}\n", ":return: {}\n"]
+
+
 def pump(rng, s):
     """pumped input: after a word that the scanners react to, a long run (20-60) of one repeated unit, then an ordinary word —
     the shape on which super-linear scanning (nested loops, backtracking) shows"""
@@ -319,6 +324,13 @@ def run(chk: core.Check) -> int:
     for _ in range(400 if chk.quick else 6000):
         add(pump(rng, rng.choice(base) if rng.random() < 0.6 else rng.choice(["", "Summary.\n\n:param a: b\n", "Args:\n  a (int): b\n"])))
         n_pumped += 1
+    # descriptions whose "X or Y" members are expressions that are expensive to EVALUATE (bounded memory: 9**9**9 has ~1.2e9 bits): prose is only ever
+    # scanned, so the call must return at once whatever the text says; a scanner change that lets operator characters through to the type probe
+    # (`eval` of the candidate type) turns these few dozen characters into minutes of arithmetic
+    for bomb in BOMBS:
+        for tpl in BOMB_TEMPLATES:
+            add(tpl.replace("{}", bomb))
+            n_pumped += 1
     chk.coverage["pumped_inputs"] = n_pumped
     impl = core.guarded_map(impl_walk, docs, 10.0)
     model = core.model_batch([{"op": "c11.walk", "doc": d} for d in docs]) if have_driver else [None] * len(docs)
